@@ -79,14 +79,25 @@ package fp
 //@ func promTryComplete[T any](v Try[T]) bool {
 //@ 	r := promSetup[T]()
 //@ 	ok, cbs := r.tryCompleteAndGetListeners(v)
-//@ 	_ = cbs
 //@ 	if !r.IsCompleted() {
 //@ 		return false
 //@ 	}
 //@ 	if ok {
+//@ 		// the listeners handed back are exactly the ones that were registered at the instant of completion
+//@ 		was := promList[T](verifspec.LastCASOld())
+//@ 		if len(cbs) != len(was) || !promPrefix(was, cbs) {
+//@ 			return false
+//@ 		}
 //@ 		return verifspec.AtomicWrites() == 1 && verifspec.Eq(verifspec.W(r.Value()), verifspec.W(v)) && verifspec.TraceLen() == 0
 //@ 	}
 //@ 	return verifspec.AtomicWrites() == 0 && verifspec.TraceLen() == 0
+//@ }
+//@ func promListeners[T any](v Try[T]) bool {
+//@ 	r := promSetup[T]()
+//@ 	ok, cbs := r.tryCompleteAndGetListeners(v)
+//@ 	verifspec.Assume(ok)
+//@ 	was := promList[T](verifspec.LastCASOld())
+//@ 	return len(cbs) == len(was) && promPrefix(was, cbs)
 //@ }
 //@ func promDispatch[T any](cb onCompleteFunc[T]) bool {
 //@ 	r := promSetup[T]()
@@ -113,6 +124,11 @@ package fp
 //@   prop C05
 //@   option tailrec=tryCompleteAndGetListeners
 //@   ensures promTryComplete(v)
+//
+//@ lemma promiseListeners[T any](v Try[T])
+//@   prop C05
+//@   option tailrec=tryCompleteAndGetListeners
+//@   ensures promListeners(v)
 //
 //@ lemma promiseDispatch[T any](cb onCompleteFunc[T])
 //@   prop C05
